@@ -1161,6 +1161,80 @@ def derived_only_inputs_case(pr):
     return None
 
 
+def special_files_case(pr):
+    """things that are not regular files under a declared path (a named pipe, a socket, a dangling link): they are not
+    files of the set; the run ends, builds, and the next run skips"""
+    import socket
+    pr.write("src/main.txt", "m")
+    pr.write("out/keep.txt", "k")
+    os.mkfifo(pr.path("src/pipe"))
+    os.mkfifo(pr.path("out/pipe.txt"))
+    os.mkfifo(pr.path("lone_pipe"))
+    s = socket.socket(socket.AF_UNIX)
+    s.bind(pr.path("src/sock"))
+    os.symlink("nowhere", pr.path("src/dangling.txt"))
+    pr.commands.append("mkfifo src/pipe out/pipe.txt lone_pipe; bind a unix socket at src/sock; ln -s nowhere src/dangling.txt")
+    t = _t([{"paths": ["src", "lone_pipe"]}], [{"paths": ["out"], "extensions": ["txt"]}, {"paths": ["res.txt"]}], body="cat src/main.txt > res.txt")
+    pr.write("zinoma.yml", yml({"t": t}))
+    try:
+        for (i, must_run) in ((1, True), (2, False)):
+            pr.clear_log()
+            r = pr.run("t", timeout=15)
+            if r.timed_out or r.rc != 0:
+                return {"property": ["C04"], "expected": "invocation %d over a tree holding a named pipe, a socket and a dangling link ends with exit 0" % i, "observed": "exit %s%s" % (r.rc, " (killed after 15 s: it never terminated)" if r.timed_out else ""), "zinoma": r.brief()}
+            if _ran(pr) != must_run:
+                return {"property": ["C02"] if must_run else ["C03"], "expected": "invocation %d %s" % (i, "builds" if must_run else "is skipped: nothing changed"), "observed": "script ran: %s" % _ran(pr), "zinoma": r.brief()}
+        pr.clear_log()
+        r = pr.run("--clean", "t", timeout=15)
+        if r.timed_out or r.rc != 0 or not _ran(pr):
+            return {"property": ["C04", "C12"], "expected": "`--clean t` over the same tree ends with exit 0 and runs t", "observed": "exit %s timed out %s ran %s" % (r.rc, r.timed_out, _ran(pr)), "zinoma": r.brief()}
+    finally:
+        s.close()
+    return None
+
+
+def mtime_preserved_history_case(pr):
+    """a record is what the files were at the last successful completion - also for a file whose modification time did not move
+    between two completions (cp -p, rsync -t, coarse clocks)"""
+    pr.write("src/a.txt", "AAAA")
+    pr.write("src/b.txt", "b1")
+    pr.write("zinoma.yml", yml({"t": _t([{"paths": ["src"]}], [{"paths": ["out.txt"]}], body="cat src/a.txt src/b.txt > out.txt")}))
+    _run_ok(pr, "t")
+    st = os.stat(pr.path("src/a.txt"))
+    with open(pr.path("src/a.txt"), "w") as f:
+        f.write("BBBB")
+    os.utime(pr.path("src/a.txt"), ns=(st.st_atime_ns, st.st_mtime_ns))
+    pr.commands.append("rewrite src/a.txt (AAAA -> BBBB) keeping its modification time")
+    pr.edit("src/b.txt", "b2-longer")
+    pr.clear_log()
+    r = _run_ok(pr, "t")
+    if not _ran(pr):
+        return {"property": "C02", "expected": "src/b.txt changed: t builds", "observed": "skipped", "zinoma": r.brief()}
+    built_from = pr.read("out.txt")
+    with open(pr.path("src/a.txt"), "w") as f:
+        f.write("AAAA")
+    os.utime(pr.path("src/a.txt"), ns=(st.st_atime_ns, st.st_mtime_ns + 5_000_000_000))
+    pr.commands.append("rewrite src/a.txt (BBBB -> AAAA) with a new modification time")
+    pr.clear_log()
+    r = _run_ok(pr, "t")
+    if not _ran(pr):
+        return {"property": "C02", "expected": "src/a.txt has neither the modification time nor the content it had at the last successful completion (which built %r): t builds" % built_from, "observed": "skipped; out.txt is still %r" % pr.read("out.txt"), "zinoma": r.brief()}
+    # and the other way round: the output tampered with, its time kept, then restored with a new time
+    so = os.stat(pr.path("out.txt"))
+    good = pr.read("out.txt")
+    with open(pr.path("out.txt"), "w") as f:
+        f.write("X" * len(good))
+    os.utime(pr.path("out.txt"), ns=(so.st_atime_ns, so.st_mtime_ns))
+    pr.edit("src/b.txt", "b3-longer-still")
+    pr.clear_log()
+    _run_ok(pr, "t")
+    pr.clear_log()
+    r = _run_ok(pr, "t")
+    if _ran(pr):
+        return {"property": "C03", "expected": "nothing changed since the last completion: skipped", "observed": "t ran", "zinoma": r.brief()}
+    return None
+
+
 def cases(seed, tier="quick"):
     C = lambda n, fn, what: Case("incr", n, fn, what)
     out = [
@@ -1240,4 +1314,6 @@ def cases(seed, tier="quick"):
     for imp in (False, True):
         for op in ("ver", "src"):
             out.append(C("xoutput-%s-%s" % ("imported" if imp else "local", op), xoutput_case(imp, op), "X.output inheritance"))
+    out.append(C("special-files", special_files_case, "named pipe, socket and dangling link under declared paths"))
+    out.append(C("mtime-preserved-history", mtime_preserved_history_case, "a file rewritten with its modification time kept, between two completions"))
     return out
